@@ -2,6 +2,7 @@ import AvoVerif.Drv.Common
 import AvoVerif.Drv.C02
 import AvoVerif.Model.Covers
 import AvoVerif.Model.BuildRW
+import AvoVerif.Model.DeclCover
 namespace Avo.Drv.C04
 open Avo.Drv Avo.Reg Avo.MaskSet Avo.RW Avo.BuildRW
 
@@ -74,8 +75,36 @@ def handleBuildRW : Handler
       | some rs => some (C02.msStr (C02.regSet rs) ++ " " ++ C02.msStr (C02.regSet (declaredWrites a)))
   | _ => none
 
+/-- `accept-decl <id> <opcode.suffixes> <types> <operands> C <cancelling> <n> (<action> <implicit>)* <n> <implicit operand>*
+<n> <explicit operand>* D <declared reads> <declared writes>`: the sets the REAL code declares for a row instantiated
+with these operands must contain the registers of every entry of the row per its action (`acceptDecl`; theorem
+`acceptDecl_sound`), whatever registers coincide between entries.  Otherwise the missing lanes are named. -/
+def handleDecl : Handler
+  | "accept-decl" :: _id :: _opc :: _types :: _ops :: "C" :: c :: rest => do
+    let (specs, rest) ← listOf specTok rest
+    let (impls, rest) ← listOf C02.opndTok rest
+    let (ops, rest) ← listOf C02.opndTok rest
+    match rest with
+    | "D" :: rest =>
+      let (dR, rest) ← C02.msTok rest
+      let (dW, _) ← C02.msTok rest
+      let im := impls.map (·.op)
+      let ex := ops.map (·.op)
+      if acceptDecl (c == "1") specs im ex dR dW then some "ok" else
+      match assign specs im ex with
+      | none => some "bad-too-few-operands"
+      | some _ =>
+        let (ur, uw) := declMissing (c == "1") specs im ex dR dW
+        some (match uw.isEmpty, ur.isEmpty with
+          | false, true => "bad-undeclared-write " ++ locsStr uw
+          | true, false => "bad-undeclared-read " ++ locsStr ur
+          | false, false => "bad-undeclared-write " ++ locsStr uw ++ " undeclared-read " ++ locsStr ur
+          | true, true => "bad-inconsistent")
+    | _ => none
+  | _ => none
+
 def handlers : List (String × Handler) :=
   [("accept-rw", handle), ("accept-exec", handleExec), ("accept-build", handleBuild), ("build-rw", handleBuildRW),
-   ("usedef", C02.handle)]
+   ("usedef", C02.handle), ("accept-decl", handleDecl)]
 
 end Avo.Drv.C04
